@@ -201,34 +201,6 @@ Section Concrete.
      vt_add T (snd (fst nval)) (snd (fst oval)),
      vt_add T (snd nval) (snd oval)).
 
-  (* forward volume averaging model grid -> computational grid with the same
-     entry list (maps.interpolate(method='volume') in jvec): value of the
-     computational cell (ci,cj,ck) = sum over the entries that target it *)
-  Definition v_apply (T : list (cell3 * cell3 * K)) (a : A3) : A3 :=
-    fun ci cj ck =>
-      sum T (fun t => let m := fst (fst t) in
-                      let c := snd (fst t) in
-                      if (Z.eqb ci (fst (fst c)) && Z.eqb cj (snd (fst c)) && Z.eqb ck (snd c))%bool
-                      then snd t * a (fst (fst m)) (snd (fst m)) (snd m) else 0).
-
-  (* jvec source when the computational grid differs from the model grid.
-     ORDER (as in Simulation.jvec): chain factor with the MODEL's property
-     arrays on the MODEL grid, THEN volume averaging of each component to the
-     computational grid, anisotropy stacking, edge-mass derivative, -smu0.
-     (nxc nyc nzc: computational shape, only used to tabulate when executing.) *)
-  Definition jvec_source_T (case nxc nyc nzc : Z) (volc : A3) (smu0 : K) (e : A3 * A3 * A3)
-             (T : list (cell3 * cell3 * K)) (v : list A3) (cx cy cz : A3)
-    : A3 * A3 * A3 :=
-    let cm := chain_mul case v cx cy cz in
-    let cc := map (fun a => tab3 0 nxc nyc nzc (v_apply T a)) cm in
-    let cv := expand case cc in
-    let wx := mul3 volc (fst (fst cv)) in
-    let wy := mul3 volc (snd (fst cv)) in
-    let wz := mul3 volc (snd cv) in
-    (fun i j k => - smu0 * (fst (fst e) i j k * Me_x wx i j k),
-     fun i j k => - smu0 * (snd (fst e) i j k * Me_y wy i j k),
-     fun i j k => - smu0 * (snd e i j k * Me_z wz i j k)).
-
   (* one source-frequency pair on its own computational grid *)
   Record pair_cg : Type := {
     pc_nx : Z; pc_ny : Z; pc_nz : Z;          (* shape of the computational grid *)
@@ -320,4 +292,32 @@ Section Concrete.
   Definition edge_avg_z (nx ny : Z) (eta : A3) (i j k : Z) : K :=
     (eta (ixm i) (ixm j) k + eta (ixp nx i) (ixm j) k
      + eta (ixm i) (ixp ny j) k + eta (ixp nx i) (ixp ny j) k) / Flit 4 1.
+  (* forward volume averaging model grid -> computational grid with the same
+     entry list (maps.interpolate(method='volume') in jvec): value of the
+     computational cell (ci,cj,ck) = sum over the entries that target it *)
+  Definition v_apply (T : list (cell3 * cell3 * K)) (a : A3) : A3 :=
+    fun ci cj ck =>
+      sum T (fun t => let m := fst (fst t) in
+                      let c := snd (fst t) in
+                      if (Z.eqb ci (fst (fst c)) && Z.eqb cj (snd (fst c)) && Z.eqb ck (snd c))%bool
+                      then snd t * a (fst (fst m)) (snd (fst m)) (snd m) else 0).
+
+  (* jvec source when the computational grid differs from the model grid.
+     ORDER (as in Simulation.jvec): chain factor with the MODEL's property
+     arrays on the MODEL grid, THEN volume averaging of each component to the
+     computational grid, anisotropy stacking, edge-mass derivative, -smu0.
+     (nxc nyc nzc: computational shape, only used to tabulate when executing.) *)
+  Definition jvec_source_T (case nxc nyc nzc : Z) (volc : A3) (smu0 : K) (e : A3 * A3 * A3)
+             (T : list (cell3 * cell3 * K)) (v : list A3) (cx cy cz : A3)
+    : A3 * A3 * A3 :=
+    let cm := chain_mul case v cx cy cz in
+    let cc := map (fun a => tab3 0 nxc nyc nzc (v_apply T a)) cm in
+    let cv := expand case cc in
+    let wx := mul3 volc (fst (fst cv)) in
+    let wy := mul3 volc (snd (fst cv)) in
+    let wz := mul3 volc (snd cv) in
+    (fun i j k => - smu0 * (fst (fst e) i j k * Me_x wx i j k),
+     fun i j k => - smu0 * (snd (fst e) i j k * Me_y wy i j k),
+     fun i j k => - smu0 * (snd e i j k * Me_z wz i j k)).
+
 End Concrete.
